@@ -120,6 +120,9 @@ DELEV_MODELS = [
 PAYOUT_MODELS = [
     {"name": "payout", "module": "MC_Payout.tla", "cfg": {"quick": "MC_PayoutQuick.cfg", "thorough": "MC_PayoutThorough.cfg"},
      "setup": "setups/payoutmodel.json", "init_from_setup": True, "timeout": {"quick": 900, "thorough": 10000}},
+    # the same world on Token-2022 transfer-fee mints (bank mint 1 % capped, emissions mint 0.5 % capped): every payout arrives net of the fee
+    {"name": "payoutfee", "module": "MC_Payout.tla", "cfg": {"quick": "MC_PayoutFeeQuick.cfg", "thorough": "MC_PayoutFeeThorough.cfg"},
+     "setup": "setups/payoutfee.json", "init_from_setup": True, "timeout": {"quick": 900, "thorough": 10000}},
 ]
 
 
